@@ -89,19 +89,19 @@ void PUTStatement::unparse(Context& ctx, FILE * out) const
   std::vector<std::string> texts;
   for (const Expression * exp : _args)
     texts.push_back(exp->unparse(ctx));
-  for (size_t i = 0; i < texts.size(); ++i)
+  /* a name followed by a parenthesis would read back as a call: the
+   * argument that ends with the name is enclosed (from the last one down, as
+   * enclosing an argument puts a parenthesis behind the one before) */
+  for (size_t i = texts.size(); i-- > 1; )
   {
-    /* a name followed by a parenthesis would read back as a call: the
-     * argument that ends with the name is enclosed */
-    bool enclose = (i + 1 < texts.size() && !texts[i].empty() && !texts[i + 1].empty() &&
-            texts[i + 1].front() == '(' &&
-            (::isalnum((unsigned char)texts[i].back()) || texts[i].back() == '_'));
+    if (!texts[i - 1].empty() && !texts[i].empty() && texts[i].front() == '(' &&
+            (::isalnum((unsigned char)texts[i - 1].back()) || texts[i - 1].back() == '_'))
+      texts[i - 1] = std::string("(").append(texts[i - 1]).append(")");
+  }
+  for (const std::string& text : texts)
+  {
     fputs(" ", out);
-    if (enclose)
-      fputs("(", out);
-    fputs(texts[i].c_str(), out);
-    if (enclose)
-      fputs(")", out);
+    fputs(text.c_str(), out);
   }
 }
 
